@@ -154,7 +154,7 @@ def run_proof(pr, units, work):
             return r
         binf = b
     checks = list(pr.checks) if pr.checks is not None else list(DEFAULT_CHECKS)
-    cmd3 = ['cbmc', binf] + checks + list(pr.flags)
+    cmd3 = ['cbmc', binf, '--drop-unused-functions'] + checks + list(pr.flags)
     if pr.unwind is not None:
         cmd3 += ['--unwind', str(pr.unwind), '--unwinding-assertions']
     if pr.unwindset:
